@@ -52,6 +52,10 @@ CHECKS = {
     text="spec/YRotate.tla models key rotation as a step machine over value cells (key, plaintext, anchor group, folded) with actions Find/Node/Decrypt/Encrypt/Store/Backup/Write/Exit; TLC checks AllNew, PlaintextKept, OncePerCell, StillShared, Frame, NoSecretNoTouch over every document shape up to the bound (and that the pinned identity-based Store violates AllNew). The real eyaml-rotate-keys main() is run on the emitted and on random documents with a deterministic stand-in eyaml executable; its call log and recording wrappers give the event trace validated by TLC (Trace_YRotate); the rewritten file is decrypted under new and old keys per position, sharing and the non-secret frame are compared, and a file without secrets must be untouched.",
     note="Trusted: TLC; the stand-in cipher; absdoc abstraction for the frame.",
     technique="TLA+ rotation state machine checked by TLC + C->S trace validation of the external-command protocol", ref="4/C19"),
+ "C05": dict(
+    text="spec/YMerge.tla defines the policy-driven merge (MergeRoot / MergeVal / MergeMaps with the ordered key-insertion rule / plain arrays / Arrays-of-Hashes incl. deep merge by identity key / sets / root insertion by right-hand type, MergeException outcome for the structurally impossible pairs) over document trees. TLC (MC_Merge) enumerates all pairs of generator documents, evaluates the result for the configuration set, checks the laws of C05 (left/right return one side, empty right-hand container is a no-op, left-hand keys keep their order, unique is idempotent, errors exactly for the impossible root pairs) and emits the expected result per group of configurations; MC_MergeAoH does the same for record lists with identity keys. Every (pair, configuration) is replayed into Merger.merge_with and compared on merged data incl. key/element order, or on the error class.",
+    note="Trusted: TLC; YMerge as the reading of the yaml-merge usage text and policy enum docstrings (the position of new keys follows the code's buffer rule: documentation silent). Bounds: quick = documents of <= 3 nodes per side (23k pairs) x 21 configurations (one dimension at a time + 6 combinations) + record lists 2x2; thorough = <= 4 nodes, and the full 180-configuration product on <= 3 nodes. Per-path rule/key overrides are not yet exercised (see DESIGN section 8).",
+    technique="TLA+ merge semantics + laws checked by TLC over enumerated pairs, S->C replay", ref="4/C05"),
 }
 NA_REASON = "check not built yet in this round (specification family under construction; see DESIGN.md section 9)"
 def main():
